@@ -115,6 +115,18 @@ Definition max_bottleneck_run (W : list (edge * Z)) (P S : list (node * list nod
 Definition decompose_run (W : list (edge * Z)) (P S : list (node * list node)) (topo : list node) : peel_result :=
   decompose (map fst W) (adj_of P) (adj_of S) topo (flow_of W).
 
+(* verified checker of the structural inputs (what networkx contributes): G duplicate-free, topo a
+   duplicate-free topological order containing every endpoint, the adjacency lists list exactly
+   the in-/out-neighbours *)
+Definition peel_inputs_ok (G : list edge) (P S : list (node * list node)) (topo : list node) : bool :=
+  nodupE G && nodupb topo &&
+  forallb (fun e => beforeb topo (fst e) (snd e)) G &&
+  forallb (fun e => memN (fst e) (adj_of P (snd e)) && memN (snd e) (adj_of S (fst e))) G &&
+  forallb (fun p => forallb (fun u => memE (u, fst p) G) (snd p)) P &&
+  forallb (fun p => forallb (fun x => memE (fst p, x) G) (snd p)) S.
+Fixpoint pos (l : list N) (v : N) : nat :=
+  match l with [] => O | x :: r => if (x =? v)%N then O else S (pos r v) end.
+
 (* checker used on the implementation's output: every edge's flow equals the summed path weights *)
 Definition explains_ok (W : list (edge * Z)) (D : list (list node * Z)) : bool :=
   forallb (fun p => (explained D (fst p) =? snd p)%Z) W.
